@@ -1,5 +1,6 @@
 import HpackVerif.Props.Common
 import HpackVerif.Proofs.Cost
+import HpackVerif.Proofs.CostLoop
 import HpackVerif.Proofs.IntExtra
 /-! # C16 — Decoder work grows at most linearly with the size of the block  (partial: work model)
 
@@ -43,6 +44,22 @@ theorem integer_octets_examined (data : Bytes) (N : Nat) {v k : Nat}
   rw [Props.cap_eq] at h
   exact (decodeInt_spec Props.capN data N h).2.2
 
+/-- **C16 over the work model**: for every reachable decoder state and every byte string, the work of
+    one `decode` call (`Impl.Cost.decodeCost`: per iteration a constant + three capped integers + the octets
+    the field consumes + the entries it evicts; a failing field may scan the rest once; the returned list
+    is converted octet by octet) is at most
+        `(3·intConst cap + 10) · |data|  +  (entries in the table)  +  (list limit)  +  1`
+    — linear in the length of the block for fixed limits (the entries are at most `maxsize / 32`, C06).
+    No shape of input makes the modelled cost grow quadratically. -/
+theorem decode_work_linear (st : DecState) (h : Props.DecReach st) (data : Bytes) :
+    decodeCost Props.capN true st data ≤
+      (fieldOverhead Props.capN + 2) * data.length + st.table.entries.length + st.listLimit + 1 :=
+  decodeCost_linear (own := true) Props.capN Props.capOK st (Props.decReach_inv h) data
+
+/-- the table term is itself bounded by the table size -/
+theorem entries_bounded (st : DecState) (h : Props.DecReach st) : 32 * st.table.entries.length ≤ st.table.maxsize :=
+  entries_length_le st.table (Props.decReach_inv h)
+
 /-- without a cap (the tree before the repair D1) the work on a run of `n` continuation octets grows
     quadratically: at least `7 n² / 60` units -/
 theorem uncapped_was_quadratic (n : Nat) :
@@ -60,7 +77,8 @@ theorem iterations_bounded (st : DecState) (h : Props.DecReach st) (data : Bytes
   intro hc; rw [hc] at this; simp [Out.isEsc] at this
 
 /-! non-vacuity: the constant for the current cap, and a long run being refused -/
-example : intConst Props.capN = 122 := by decide
+example : intConst 126 = 122 := by decide
+example : fieldOverhead 126 + 2 = 376 := by decide
 example : (Impl.decode Gen.intCap true (Props.freshDec 65536) (0xff :: List.replicate 40 0xff)).1 = .err .decoding := by
   decide +kernel
 
